@@ -169,6 +169,8 @@ def decode_value(v, model):
         return str(decode_value(v.v, model)).zfill(v.n)
     if isinstance(v, DigitChar):
         return str(decode_value(v.d, model))
+    if hasattr(v, "__pyvc_decode__"):
+        return v.__pyvc_decode__(model, decode_value)
     if isinstance(v, list):
         return [decode_value(x, model) for x in v]
     if isinstance(v, tuple):
